@@ -52,7 +52,7 @@ theorem reset_pwp {a r : Raft} (t : Nat) (h0 : PW a r) (st : StateRole) :
       (r.reset t).msgs := by
   rw [reset_raftLog, reset_msgs, reset_batchAppend]
   refine ⟨h0.inv, h0.nb, fun _ => .inr (reset_pall r t h0.inv), fun _ p hp => ?_, h0.qa, h0.qr,
-    h0.sn⟩
+    h0.sn, h0.fi, h0.qf⟩
   rw [reset_readOnly] at hp; cases hp
 
 theorem reset_pw {a r : Raft} (t : Nat) (h0 : PW a r) : PW a (r.reset t) := reset_pwp t h0 _
@@ -65,7 +65,7 @@ theorem becomeFollower_pw {a r : Raft} (t l : Nat) (h0 : PW a r) :
   have h2 := h1.log (c05_limit_same (r.reset t).raftLog 0)
   have hs : (r.becomeFollower t l).state ≠ .leader := by
     rw [(RaftProps.C16.becomeFollower_proj r t l).1]; intro hc; cases hc
-  exact ⟨h2.inv, h2.nb, fun h => absurd h hs, fun h => absurd h hs, h2.qa, h2.qr, h2.sn⟩
+  exact ⟨h2.inv, h2.nb, fun h => absurd h hs, fun h => absurd h hs, h2.qa, h2.qr, h2.sn, h2.fi, h2.qf⟩
 
 theorem becomeFollower_nl (r : Raft) (t l : Nat) : (r.becomeFollower t l).state ≠ .leader := by
   rw [(RaftProps.C16.becomeFollower_proj r t l).1]; intro hc; cases hc
@@ -88,7 +88,7 @@ theorem becomePreCandidate_pw {a r r' : Raft} (h : r.becomePreCandidate = .ok r'
   · cases h
   · cases h
     refine ⟨?_, rfl⟩
-    exact ⟨h0.inv, h0.nb, (fun hc => by cases hc), (fun hc => by cases hc), h0.qa, h0.qr, h0.sn⟩
+    exact ⟨h0.inv, h0.nb, (fun hc => by cases hc), (fun hc => by cases hc), h0.qa, h0.qr, h0.sn, h0.fi, h0.qf⟩
 
 theorem becomeLeader_lw {a r r' : Raft} (h : r.becomeLeader = .ok r') (h0 : PW a r) :
     LW a r' := by
